@@ -19,7 +19,7 @@ META = {
                   'values, floats, custom points and conditional multi-choices, every exported view is rebuilt under all '
                   '90 to_dict option tuples, both number forms and three JSON forms, lookups are compared with the '
                   'model, and chains of iter/random/parse/clone/mutate/recombine operations are validated step by step.',
-    'level_note': 'Bounded: 87 (quick) / ~700 (thorough) specs, <= 3 (8) DNAs per spec, chains of <= 3 (4) operations; '
+    'level_note': 'Bounded: ~100 (quick) / ~700 (thorough) specs, <= 3 (6) DNAs per spec, chains of <= 3 (4) operations; '
                   'a name shared by several decision points and literal values that look like "i/n" are outside the '
                   'compared domain; chains run on enumerable spaces only; after the first failing step a chain is cut.',
 }
